@@ -27,6 +27,8 @@ func OnImplements(t reflect.Type, iface reflect.Type, input reflect.Value, op Tr
 	var newVal reflect.Value
 
 	wasPointer := false
+	// the type as it was passed in (a nil result has to be of this type)
+	origT := t
 
 	if t.Kind() == reflect.Ptr {
 		wasPointer = true
@@ -50,7 +52,7 @@ func OnImplements(t reflect.Type, iface reflect.Type, input reflect.Value, op Tr
 	}
 
 	if v.IsNil() {
-		return reflect.Zero(t), nil
+		return reflect.Zero(origT), nil
 	}
 
 	if implemented == implementsAsPointer && !wasPointer {
